@@ -178,12 +178,9 @@ func c01Handler(p *Prog, c *Check) {
 	if !c.Must(err) {
 		return
 	}
-	agg, err := p.Func("keyper/epochkghandler.DecryptionKeyShareHandler.aggregateDecryptionKeySharesFromDB")
-	if !c.Must(err) {
-		return
-	}
+	var agg *ssa.Function // the aggregator: discovered as the producer of the EpochKG whose SecretKeys are released
+	var aggArgIdx [3]int  // parameter positions of (eon, dkg result, identity)
 	c.Analysed(shortFn(hm))
-	c.Analysed(shortFn(agg))
 	fi := p.Info(hm)
 	// every returned non-empty message list: [message] with message a DecryptionKeys literal
 	n := 0
@@ -225,9 +222,33 @@ func c01Handler(p *Prog, c *Check) {
 		b["i"] = mo.Loop.Idx
 		kf := fi.structLitFields(unbox(mo.Vals[0]))
 		pdr := "DecodePureDKGResult(GetDKGResultForKeyperConfigIndex(_, _, $m.Eon)#0.PureResult)#0"
-		ek := "aggregateDecryptionKeySharesFromDB(_, _, $m.Eon, " + pdr + ", $m.Shares[$i].IdentityPreimage)#0"
+		kb := copyBinds(b)
 		okF := kf != nil && ParsePat("Bytes($m.Shares[$i].IdentityPreimage)").Match(kf["IdentityPreimage"], copyBinds(b)) &&
-			ParsePat("Marshal("+ek+".SecretKeys[Hex($m.Shares[$i].IdentityPreimage)])").Match(kf["Key"], copyBinds(b))
+			ParsePat("Marshal($ek.SecretKeys[Hex($m.Shares[$i].IdentityPreimage)])").Match(kf["Key"], kb)
+		if okF {
+			// $ek is the first result of a module function given (msg.Eon, the decoded DKG result, identity i)
+			ek := kb["ek"]
+			okF = false
+			if ek.K == TRes && ek.Idx == 0 && ek.Sub[0].K == TCall && ek.Sub[0].Callee != nil && inModule(ek.Sub[0].Callee) {
+				pos := [3]int{-1, -1, -1}
+				for ai, at := range ek.Sub[0].Sub {
+					switch {
+					case ParsePat("$m.Eon").Match(at, copyBinds(b)):
+						pos[0] = ai
+					case ParsePat(pdr).Match(at, copyBinds(b)):
+						pos[1] = ai
+					case ParsePat("$m.Shares[$i].IdentityPreimage").Match(at, copyBinds(b)):
+						pos[2] = ai
+					}
+				}
+				if pos[0] >= 0 && pos[1] >= 0 && pos[2] >= 0 {
+					okF = true
+					agg, aggArgIdx = ek.Sub[0].Callee, pos
+					b["ek"] = ek
+					b["aggcall"] = ek.Sub[0]
+				}
+			}
+		}
 		if !okF {
 			got := ""
 			if kf != nil && kf["Key"] != nil {
@@ -237,8 +258,8 @@ func c01Handler(p *Prog, c *Check) {
 			continue
 		}
 		okG := c.Guard(p, rule, key+":guard", mo.Calls[0], "append(keys, &Key{...})", copyBinds(b),
-			"ok("+ek+".SecretKeys[Hex($m.Shares[$i].IdentityPreimage)]) == true",
-			"aggregateDecryptionKeySharesFromDB(...)#1 == nil",
+			"ok($ek.SecretKeys[Hex($m.Shares[$i].IdentityPreimage)]) == true",
+			"$aggcall#1 == nil",
 			"GetDKGResultForKeyperConfigIndex(_, _, $m.Eon)#0.Success == true",
 			"GetDKGResultForKeyperConfigIndex(_, _, $m.Eon)#1 == nil",
 		)
@@ -250,13 +271,18 @@ func c01Handler(p *Prog, c *Check) {
 
 	// aggregator: DB shares reach the EpochKG only through HandleEpochSecretKeyShare with row fields
 	rule = "C01-R4b"
+	if agg == nil {
+		c.Undecided("%s: the aggregator function could not be identified from HandleMessage", rule)
+		return
+	}
+	c.Analysed(shortFn(agg))
 	afi := p.Info(agg)
 	calls := callsTo(agg, "(*keyper/epochkg.EpochKG).HandleEpochSecretKeyShare")
 	c.Floor(rule, len(calls), 1)
 	for i, ci := range calls {
 		key := fmt.Sprintf("HandleEpochSecretKeyShare#%d", i+1)
 		args := ci.Common().Args
-		b := Binds{"pdr": afi.T(agg.Params[3]), "eon": afi.T(agg.Params[2]), "id": afi.T(agg.Params[4])}
+		b := Binds{"pdr": afi.T(agg.Params[aggArgIdx[1]]), "eon": afi.T(agg.Params[aggArgIdx[0]]), "id": afi.T(agg.Params[aggArgIdx[2]])}
 		flds := afi.structLitFields(args[1])
 		reason := ""
 		switch {
